@@ -96,7 +96,8 @@ Record state := {
   pcs : list pc
 }.
 
-Inductive act := Step (b : bool) | Use (st : Z) (q : list nat).
+(** [Again]: a thread that has returned calls the function again (every pthread_mutex_* call runs it) *)
+Inductive act := Step (b : bool) | Use (st : Z) (q : list nat) | Again.
 
 Definition set_pcs (s : state) (l : list pc) : state :=
   {| magic := magic s; rest_ok := rest_ok s; mstate := mstate s; sleepers := sleepers s; inits := inits s;
@@ -166,6 +167,7 @@ Definition tstep (sh : shape) (s : state) (t : nat) (p : pc) (a : act) : option 
       else if (magic s =? sh_magic_no sh)%Z then Some (s, PDone)
       else Some (s, PAbort)
   | PDone, Use st q => Some (do_use s st q, PDone)
+  | PDone, Again => Some (s, PStart)
   | _, _ => None
   end.
 
